@@ -505,6 +505,11 @@ func (u *unroller) rewrite(l *[]ast.Stmt, j int, rs *ast.RangeStmt, loopVar *typ
 					}
 					// declared with the field's own type (its zero value), then assigned:
 					// `x := val` alone would infer val's type, not the field's
+					if _, isFn := val.(*ast.FuncLit); isFn && !g.cond {
+						// a function literal keeps the `f := func…` form the closure pass recognises
+						out = append(out, define(names[fi], val)...)
+						return
+					}
 					if !g.cond {
 						out = append(out, define(names[fi], zeroField(fi))...)
 					}
